@@ -215,12 +215,37 @@ def value_id(i):
     return 100 + i
 
 
+def _odd_plain(kind, vid):
+    """plain (non-awaitable) items that a careless awaitability probe (hasattr instead of the type-level protocol
+    check) mistakes for awaitables: `await x` looks `__await__` up on type(x), as collections.abc.Awaitable does"""
+    if kind == 1:      # a class whose *instances* are awaitable; the class object itself is a plain value
+        return type("AwaitableClass", (), {"__await__": lambda self: iter(()), "vid": vid})
+    if kind == 2:      # catch-all attribute access (proxies, lenient records)
+
+        class Bag:
+            def __init__(self):
+                self.vid = vid
+
+            def __getattr__(self, name):
+                return lambda *a, **k: None
+        return Bag()
+
+    class Rec:         # an instance attribute that merely happens to be called __await__
+        pass
+    r = Rec()
+    r.vid = vid
+    r.__await__ = lambda: iter(())
+    return r
+
+
 def make_items(env, specs):
     """the objects inside the container: plain Items or awaitables producing them"""
     objs = []
     for i, s in enumerate(specs):
         val = Item(value_id(i), value_id(i))
-        if s["form"] == "plain":
+        if s["form"] == "plain" and s.get("odd"):
+            objs.append(_odd_plain(s["odd"], value_id(i)))
+        elif s["form"] == "plain":
             objs.append(val)
         else:
             objs.append(make_aw(env, s["form"], i, aw_toks(i, s["toks"]), val, s.get("fail")))
@@ -244,7 +269,10 @@ def make_arg(env, case):
 
 
 def _val(v):
-    return v.id if isinstance(v, Item) else ["?", type(v).__name__]
+    if isinstance(v, Item):
+        return v.id
+    vid = getattr(v, "__dict__", {}).get("vid")
+    return vid if isinstance(vid, int) else ["?", type(v).__name__]
 
 
 def run_gen(env, gen, ops):
@@ -876,6 +904,18 @@ def _gen_cases(tier):
         yield {"t": "await_each", "kind": kind, "items": [{"form": "coro", "toks": 1}] * 2, "ops": ["n", "n", "c"]}
 
 
+def _odd_cases():
+    """any_iter over plain items that only look awaitable to hasattr (see _odd_plain), in every container kind"""
+    for kind in SYNC_KINDS + ASYNC_KINDS:
+        for odd in (1, 2, 3):
+            for n in (1, 3):
+                for outer in (None, {"form": "coro", "toks": 1}):
+                    items = [{"form": "plain", "toks": 0, "odd": odd if i % 2 == 0 else 0} for i in range(n)]
+                    yield {"t": "any_iter", "kind": kind, "items": items, "ops": ["n"] * (n + 1), "outer": outer}
+                    mixed = [{"form": "coro", "toks": 1}] + items
+                    yield {"t": "any_iter", "kind": kind, "items": mixed, "ops": ["n"] * (n + 2), "outer": outer}
+
+
 def _apply_cases(tier):
     c = 0
     for n in range(0, 7):
@@ -943,6 +983,7 @@ def _random_case(rng, big):
 
 def cases(tier, rng):
     yield from _gen_cases(tier)
+    yield from _odd_cases()
     yield from _apply_cases(tier)
     yield from _sync_cases()
     for _ in range(5000 if tier == "quick" else 150000):
